@@ -241,3 +241,25 @@ class SchedRLock(SchedLock):
 
     def __exit__(self, *a):
         self.release()
+
+
+def instrument(obj, sched):
+    """Replace every threading.Lock / RLock / queue.SimpleQueue held in an attribute of `obj`
+    by its scheduler-aware twin, whatever the attribute is called (so that a harmless rename in
+    the code under test cannot turn into a hang).  Returns {attribute: replacement}."""
+    import queue
+    lock_t, rlock_t = type(threading.Lock()), type(threading.RLock())
+    out = {}
+    for name, val in list(vars(obj).items()):
+        if isinstance(val, lock_t):
+            out[name] = SchedLock(sched, name)
+        elif isinstance(val, rlock_t):
+            out[name] = SchedRLock(sched, name)
+        elif isinstance(val, queue.SimpleQueue):
+            q = SchedQueue(sched, name)
+            while not val.empty():
+                q.items.append(val.get())
+            out[name] = q
+    for name, val in out.items():
+        setattr(obj, name, val)
+    return out
